@@ -2,7 +2,7 @@
 from ..rules import holds, delivery
 from .common import hold_classes, declare
 
-RULES = ['SCRATCH-SLOT', 'LINEAR-HOLD', 'NO-DOUBLE-REL', 'RETAIN-ONCE', 'EMIT-BALANCE', 'REMOVE-RELEASES', 'REL-SHAPE',
+RULES = ['EMIT-AFTER-REL', 'SCRATCH-SLOT', 'LINEAR-HOLD', 'NO-DOUBLE-REL', 'RETAIN-ONCE', 'EMIT-BALANCE', 'REMOVE-RELEASES', 'REL-SHAPE',
          'EMITTED-STILL-HELD', 'SWAP-ATOMIC']
 FLOORS = {'LINEAR-HOLD': 13, 'RETAIN-ONCE': 13, 'REMOVE-RELEASES': 18, 'REL-SHAPE': 50, 'EMIT-BALANCE': 1,
           'NO-DOUBLE-REL': 15, 'EMITTED-STILL-HELD': 1}
